@@ -476,7 +476,8 @@ def runCyc (M entry : Nat) (ds : List String) : String :=
       | some (v, c) =>
         let its := (List.range cells.length).filterMap fun i =>
           if c.iterations i > 0 then some s!"{i}={c.iterations i}" else none
-        s!"ok {v} it={",".intercalate its} calls={c.calls}"
+        let vs := if v.natAbs > 9007199254740992 then "big" else toString v
+        s!"ok {vs} it={",".intercalate its} calls={c.calls}"
 
 /-- `opn … x<0|1>`: three evaluations on one opened `*File` (answer class + formulaChecked after
 each) and the answer of a freshly opened one; x = does the lazy array-formula expansion fail -/
